@@ -59,6 +59,7 @@ type c18In struct {
 	Path   string   `json:"path,omitempty"`
 	AE     string   `json:"ae,omitempty"`
 	NoAE   bool     `json:"noae,omitempty"` // do not send the header at all
+	CS     bool     `json:"cs,omitempty"`   // httpserver.CaseSensitivePath during the request
 	Script []c18Op  `json:"script,omitempty"`
 	Ret    int      `json:"ret,omitempty"`
 	// big: writes are generated (size, kind) pairs
@@ -641,6 +642,8 @@ func c18Run(in0 interface{}) Result {
 	if hz != "" {
 		sig = hz
 	}
+	httpserver.CaseSensitivePath = in.CS
+	defer func() { httpserver.CaseSensitivePath = false }()
 	switch in.Kind {
 	case "script":
 		hdr["X-C18-Probe"] = "1"
@@ -648,7 +651,7 @@ func c18Run(in0 interface{}) Result {
 		G := c18Do(gsite.addr, method, in.Path, hdr)
 		P := c18Do(psite.addr, method, in.Path, hdr)
 		e := &c18Emit{}
-		term := e.Wrap(cApp("CScript", "false", c18CfgTerm(in.Cfgs), cBool(head), cStr(in.Path), cStr(ae), c18OpsTerm(e, in.Script),
+		term := e.Wrap(cApp("CScript", cBool(in.CS), c18CfgTerm(in.Cfgs), cBool(head), cStr(in.Path), cStr(ae), c18OpsTerm(e, in.Script),
 			cZ(int64(in.Ret)), cStr(c18ErrBody(in.Ret)), G.term(e), P.term(e)))
 		compressed := len(G.CE) == 1 && G.CE[0] == "gzip" && len(P.CE) == 0
 		class := fmt.Sprintf("script:%s:gz=%v", map[bool]string{true: "hazard", false: "plain"}[hz != ""], compressed)
@@ -670,7 +673,7 @@ func c18Run(in0 interface{}) Result {
 				}
 			}
 		}
-		term := e.Wrap(cApp("CStatic", "false", c18CfgTerm(in.Cfgs), cBool(head), cStr(in.Path), cStr(ae), dterm, cList(sibs),
+		term := e.Wrap(cApp("CStatic", cBool(in.CS), c18CfgTerm(in.Cfgs), cBool(head), cStr(in.Path), cStr(ae), dterm, cList(sibs),
 			cStr(c18ErrBody(404)), G.term(e), P.term(e)))
 		compressed := len(G.CE) == 1 && G.CE[0] == "gzip" && len(P.CE) == 0
 		class := fmt.Sprintf("static:sibs=%d:pce=%s:gz=%v", len(sibs), strings.Join(P.CE, "+"), compressed)
@@ -955,7 +958,7 @@ func c18Gen(r *Rand, tier string) []interface{} {
 			cfgs = []c18Cfg{{}}
 		}
 		for i := 0; i < perCfgScript; i++ {
-			in := &c18In{Kind: "script", Cfgs: cfgs, Method: "GET", Path: c18GenPath(r)}
+			in := &c18In{Kind: "script", Cfgs: cfgs, Method: "GET", Path: c18GenPath(r), CS: r.Chance(15)}
 			if r.Chance(8) {
 				in.Method = "HEAD"
 			} else if r.Chance(8) {
@@ -970,7 +973,7 @@ func c18Gen(r *Rand, tier string) []interface{} {
 			out = append(out, in)
 		}
 		for i := 0; i < perCfgStatic; i++ {
-			in := &c18In{Kind: "static", Cfgs: cfgs, Method: "GET"}
+			in := &c18In{Kind: "static", Cfgs: cfgs, Method: "GET", CS: r.Chance(10)}
 			if r.Chance(8) {
 				in.Method = "HEAD"
 			}
@@ -1024,7 +1027,7 @@ func c18GenCoq(repo string) (string, error) {
 	if err != nil {
 		return "", err
 	}
-	var skip []string
+	skip := []string{}
 	foundSkip := false
 	for _, d := range f.Decls {
 		fd, ok := d.(*ast.FuncDecl)
@@ -1034,6 +1037,8 @@ func c18GenCoq(repo string) (string, error) {
 		if id, ok := fd.Recv.List[0].Type.(*ast.Ident); !ok || id.Name != "SkipCompressedFilter" {
 			continue
 		}
+		// the method exists; a switch without any `return false` clause skips nothing
+		foundSkip = true
 		ast.Inspect(fd.Body, func(n ast.Node) bool {
 			cc, ok := n.(*ast.CaseClause)
 			if !ok || len(cc.List) == 0 || len(cc.Body) != 1 {
@@ -1053,12 +1058,11 @@ func c18GenCoq(repo string) (string, error) {
 				}
 				skip = append(skip, s)
 			}
-			foundSkip = true
 			return true
 		})
 	}
 	if !foundSkip {
-		return "", fmt.Errorf("SkipCompressedFilter.ShouldCompress: `case <strings>: return false` not found")
+		return "", fmt.Errorf("method SkipCompressedFilter.ShouldCompress not found in responsefilter.go")
 	}
 	// defaultExtensions
 	_, f2, err := parseGo(filepath.Join(repo, "caskethttp/gzip/requestfilter.go"))
